@@ -96,7 +96,8 @@ def world2(framework=None):
 
 BASIC_C1 = ms.basic("c1", "s1")["Authorization"]
 HOSTILE_AUTH = ["", "Basic", "Basic ", "Basic !!!", "Basic " + base64.b64encode(b"\xff\xfe:x").decode(), "Basic " + base64.b64encode(b"nocolon").decode(),
-                "Basic " + base64.b64encode("c1:é".encode()).decode(), "Basic " + base64.b64encode(b"c1%zz:s1").decode(), "Basic " + "A" * 5000, "Bearer", "Bearer ", "Bearer a b",
+                "Basic " + base64.b64encode("c1:é".encode()).decode(), "Basic " + base64.b64encode(b"c1%zz:s1").decode(), "Basic " + base64.b64encode(b"c1%ff:s1").decode(), "Basic " + base64.b64encode(b"c1:s%c3%28").decode(),
+                "Basic " + base64.b64encode(b"%e2%82:s1").decode(), "Basic " + base64.b64encode(b"c1:%80").decode(), "Basic " + "A" * 5000, "Bearer", "Bearer ", "Bearer a b",
                 "Bearer é", "Bearer " + "\x00", "bearer at2", "OAuth realm=\"x\"", "Digest x", "é", "Basic\tYzE6czE=", "Basic YzE6czE=, Bearer x", 'Bearer "x"']
 
 OAUTH2_ENDPOINTS = {
